@@ -1220,4 +1220,52 @@ theorem C04_cex_stale_parent :
     (cexRig[4]?).map (·.refs) = some [.one 5, .many [6, 7], .one 2] := by decide
 
 
+/-! ## Mapping pairs must separate what they map (function-valued fields, FunctionMapping) -/
+
+
+/-- **C04_roundtrips_separates.** A round-tripping `create_from_dao` (`unmap`) cannot factor through any projection
+`π` of the mapping's columns that identifies the DAO labels of two alternatively mapped objects with different
+class/scalars — e.g. a cache keyed by (module, function name) without the owning class for `FunctionMapping`. -/
+theorem C04_roundtrips_separates (unmap : Label → Option Label) (h : Heap) (hrt : RoundTrips unmap h)
+    {α : Type} (π : Label → α) (hπ : ∀ l l', π l = π l' → unmap l = unmap l')
+    (n n' : Node) (hn : n ∈ h) (hn' : n' ∈ h) (ha : n.kind = .alt) (ha' : n'.kind = .alt)
+    (hs : (unmap n.view).isSome = true) (hp : π n.view = π n'.view) : n.lab = n'.lab := by
+  have e := hπ _ _ hp
+  have h1 := hrt n hn
+  have h2 := hrt n' hn'
+  simp only [objMk, daoMk, ha, ha'] at h1 h2
+  rw [← h1, ← h2, e]
+  cases hu : unmap n'.view with
+  | none => rw [e, hu] at hs; cases hs
+  | some x => rfl
+
+/-- two functions with the same module and `__name__` on different owners, as alternatively mapped leaves -/
+def fnNode (q cls : String) : Node :=
+  { lab := ⟨"function", q⟩, kind := .alt, view := ⟨"FunctionMapping", cls⟩, tabs := ["FunctionMappingDAO"],
+    fields := [], refs := [] }
+
+def jobHeap : Heap := [
+  { lab := ⟨"AuxPipeline", ""⟩, kind := .plain, view := noView, tabs := ["AuxPipelineDAO"], fields := [⟨false, "j"⟩],
+    refs := [.many [1, 3]] },
+  { lab := ⟨"AuxJob", "name=sload"⟩, kind := .plain, view := noView, tabs := ["AuxJobDAO"], fields := [⟨false, ""⟩],
+    refs := [.one 2] },
+  fnNode "AuxLoader.run" "function_name=srun,class_name=sAuxLoader",
+  { lab := ⟨"AuxJob", "name=ssave"⟩, kind := .plain, view := noView, tabs := ["AuxJobDAO"], fields := [⟨false, ""⟩],
+    refs := [.one 4] },
+  fnNode "AuxSaver.run" "function_name=srun,class_name=sAuxSaver"]
+
+/-- the mapping keyed by all columns round-trips; the one that only looks at the first 17 characters of the columns
+(the function name) does not (tests) -/
+def jobUnmap : Label → Option Label := fun l =>
+  if l = ⟨"FunctionMapping", "function_name=srun,class_name=sAuxLoader"⟩ then some ⟨"function", "AuxLoader.run"⟩
+  else if l = ⟨"FunctionMapping", "function_name=srun,class_name=sAuxSaver"⟩ then some ⟨"function", "AuxSaver.run"⟩
+  else none
+
+def jobUnmapCached : Label → Option Label := fun l =>
+  if l.cls = "FunctionMapping" then some ⟨"function", "AuxLoader.run"⟩ else none
+
+example : RoundTrips jobUnmap jobHeap ∧ ¬ RoundTrips jobUnmapCached jobHeap ∧
+    trigStale jobUnmap jobHeap [0] = false ∧ (roundTrip true jobUnmap jobHeap [0]).isSome = true := by decide
+
+
 end KrroodVerif.Dao
